@@ -42,6 +42,15 @@ func (s *sites) walkOp(op *Op) {
 		}
 		return
 	}
+	if op.K == "errorfx" {
+		// the directive list refers to operands by position
+		s.frozen++
+		for i := range op.A {
+			s.walkVal(&op.A[i])
+		}
+		s.frozen--
+		return
+	}
 	if op.K == "panicx" {
 		s.frozen++
 		if op.In != nil {
